@@ -18,7 +18,8 @@ RULE = ("history cases execute 5-12 calls in ONE worker process: propka.run.sing
         "allocation pattern) and the records must not change. Non-trivial: the history repeats a "
         "(content, options) pair with a different call in between and contains a coupled system; a "
         "layout case is non-trivial when a set of >= 5 groups is iterated; distinct = distinct case "
-        "descriptors.")
+        "descriptors."
+        " Inputs include MODEL files in which several ionizable residues exist in later models only; main-mode calls also carry -i and -p.")
 ASSUMPTIONS = ["pseudo-addresses are 16-aligned like CPython object addresses; unaligned values would create set "
                "orders that real addresses cannot produce"]
 TIMEOUT = {"quick": 3000, "thorough": 14400}
